@@ -215,13 +215,25 @@ def run_cases(pid, chk_module, case_terms, shard=400, extra_imports=(), check_fn
             os.makedirs(keep, exist_ok=True)
             shutil.copy(fn, os.path.join(keep, 'failed_' + pid + '_' + os.path.basename(fn)))
             raise CoqError('coqc failed (%d) on %s:\n%s' % (p.returncode, fn, p.stdout[-3000:]))
-        return [(k + int(m.group(1)), int(m.group(2))) for m in re.finditer(r'\((\d+),\s*(\d+)\)', p.stdout)]
+        return [(k + i, c) for i, c in parse_codes(p.stdout, fn)]
 
     for lst in parallel_map(one, files):
         for i, c in lst:
             results[i] = c
     shutil.rmtree(d, ignore_errors=True)
     return results
+
+
+def parse_codes(out, fn='?'):
+    """Strict parser for the output of `Eval vm_compute in (codes …)`: anything unexpected is an error."""
+    m = re.search(r'=\s*(\[.*?\])\s*:\s*list\s*\(nat\s*\*\s*nat\)', out, flags=re.S)
+    if not m:
+        raise CoqError('unparsable coqc output for %s:\n%s' % (fn, out[-2000:]))
+    body = re.sub(r'%nat', '', m.group(1))
+    body = re.sub(r'\s+', '', body)
+    if not re.fullmatch(r'\[(\(\d+,\d+\)(;\(\d+,\d+\))*)?\]', body):
+        raise CoqError('unparsable code list for %s: %s' % (fn, body[:500]))
+    return [(int(a), int(b)) for a, b in re.findall(r'\((\d+),(\d+)\)', body)]
 
 
 # ------------------------------------------------------------------ known findings
